@@ -47,7 +47,8 @@ def configs(tier):
                t(8, 1, 1, [0, 1, 0x7FF], ["pid", "long"], ["in+ack", "in", "out0", "tok-other"]),
                t(5, 3, 2, [2, 0x3FF, 0x7FE], ["crc7fe", "short"], ["in", "out0", "ack"]),
                t(1, 8, 1, list(FRAMES), ["crc1", "long"], ["in+ack"]),
-               t(1, 1, 1, list(FRAMES), ["crc1", "crc7fe", "long"], ["in+ack", "in", "out0", "ack", "tok-other"])]
+               t(1, 1, 1, list(FRAMES), ["crc1", "crc7fe", "long"], ["in+ack", "in", "out0", "ack", "tok-other"]),
+               t(1, 1, 1, list(FRAMES), list(BAD), list(SIDE))]
     return cs
 
 
@@ -57,7 +58,7 @@ class FrameSpec(Spec):
 
     def __init__(self, cfg, tier):
         super().__init__(cfg, tier)
-        self.time_budget = 240 if tier == "quick" else 850     # safety net only: the closures are small
+        self.time_budget = 240 if tier == "quick" else 1500    # safety net only: the closures are small
         self.host = Host(gap=cfg["gap"], pace=cfg["pace"], ready_period=cfg["ready"],
                          extra=dict(connect=1, in_valid=1, in_payload=0x5A, out_ready=1))
         acts = [("sof", n) for n in cfg["frames"]]
